@@ -210,6 +210,31 @@ def run_case(case):
                 res["violations"].append(("diff-exit-status-wrong:%s" % ("misses-change" if expect_diff else "reports-phantom-change"),
                                           "round %d: diff rc=%s, model expects %s (changed in model: %s; summary %s)" %
                                           (rnd, rd.rc, want_rc, evidence.jsonable(changed), evidence.jsonable([t[1:] for t in rd.tag("summary")][:8])), rep))
+            if expect_diff and rng.random() < 0.4:
+                # a sync that does not finish (limited to some stripes, or stopped after the parity update before the final
+                # save) comes first: nothing else changes, and diff has to say that there is still something to do as long
+                # as a stripe holding a file has a block whose parity is not up to date
+                pargs = rng.choice([["-B", str(rng.randint(1, 3))], ["-B", "1"], ["-S", str(rng.randint(1, 4)), "-B", str(rng.randint(1, 2))],
+                                    ["--test-kill-after-sync"]])
+                rp = a.cmd("sync", "-E", "-Z", *pargs, *opts, variant=variant)
+                hist.append(("sync-incomplete", pargs, rp.rc))
+                try:
+                    cpart = a.load_content()
+                except (FileNotFoundError, cnt.DecodeError):
+                    cpart = None
+                if cpart is not None:
+                    smp = cpart.stripe_map()
+                    incomplete = any(any(e[1] == "file" for e in ents) and any(e[4] != BLK for e in ents) for ents in smp.values())
+                    allclean = all(e[4] == BLK for ents in smp.values() for e in ents)
+                    rdp = a.cmd("diff", *opts, variant=variant)
+                    res["counters"]["diff_runs_after_incomplete_sync"] = res["counters"].get("diff_runs_after_incomplete_sync", 0) + (1 if incomplete else 0)
+                    if incomplete and rdp.rc != 2:
+                        res["violations"].append(("diff-exit-status-wrong:misses-incomplete-sync",
+                                                  "round %d: after sync %s (rc=%s) stripes holding files still have blocks without valid parity, nothing else is pending, diff rc=%s" %
+                                                  (rnd, " ".join(pargs), rp.rc, rdp.rc), rep))
+                    elif allclean and rp.rc == 0 and rdp.rc != 0:
+                        res["violations"].append(("diff-exit-status-wrong:reports-phantom-change", "round %d: after sync %s completed everything diff rc=%s" %
+                                                  (rnd, " ".join(pargs), rdp.rc), rep))
             rs = a.cmd("sync", "-E", "-Z", *opts, variant=variant)
             for s_ in rs.san:
                 res["violations"].append(("sanitizer:" + A.san_key(s_), s_[:2500], rep))
